@@ -590,15 +590,37 @@ func c09g2ApplyState(c *eng.Ctx) {
 		return
 	}
 	c.Clause("R5", "C09.4")
+	// stores into the fields of the state being built (a composite literal or a fresh allocation filled field by field)
+	fieldStores := func(fld string) []*ssa.Store {
+		var out []*ssa.Store
+		for _, in := range eng.Instrs(f, func(in ssa.Instruction) bool {
+			st, ok := in.(*ssa.Store)
+			if !ok {
+				return false
+			}
+			fa, ok := st.Addr.(*ssa.FieldAddr)
+			if !ok || eng.FieldVar(fa) == nil || eng.FieldVar(fa).Name() != fld || !strings.HasSuffix(structTypeName(fa.X.Type()), "fsmTxnCommitIndexApplicationState") {
+				return false
+			}
+			_, fresh := fa.X.(*ssa.Alloc)
+			return fresh
+		}) {
+			out = append(out, in.(*ssa.Store))
+		}
+		return out
+	}
 	n := 0
 	for _, fld := range []string{"latestAppliedIndex", "commandOffset", "commandIndex"} {
-		for _, st := range eng.Stores(f, `^&complit\.`+fld+`$`) {
+		for _, st := range fieldStores(fld) {
 			n++
 			c.Prov(f, "applyState."+fld, st, st.Val, `^param:`+fld+`$`)
 		}
 	}
-	for _, st := range eng.Stores(f, `^&complit\.inTx$`) {
-		n++
+	sts := fieldStores("inTx")
+	if len(sts) == 0 {
+		c.OK(f, "applyState.inTx", f.Pos(), "left at its zero value: a command starts outside a transaction")
+	}
+	for _, st := range sts {
 		if eng.Expr(st.Val) == "false" {
 			c.OK(f, "applyState.inTx", st.Pos(), "a command starts outside a transaction")
 		} else {
@@ -631,8 +653,48 @@ func c09g2RecordOperands(c *eng.Ctx) {
 			}
 		}
 	}
+	// a value is (an alias of) the given field of the receiver, also through a captured local
+	isField := func(v ssa.Value, fld string) bool {
+		fv := c.P.Field(fld)
+		os := nfOrigins(v, nil)
+		if fv == nil || len(os) == 0 {
+			return false
+		}
+		for _, o := range os {
+			ld, ok := o.Val.(*ssa.UnOp)
+			if !ok || ld.Op != token.MUL {
+				return false
+			}
+			fa, ok := ld.X.(*ssa.FieldAddr)
+			if !ok || eng.FieldVar(fa) != fv {
+				return false
+			}
+		}
+		return true
+	}
+	allUpdates := func(f *ssa.Function) []*ssa.MapUpdate {
+		var out []*ssa.MapUpdate
+		for _, in := range eng.Instrs(f, func(in ssa.Instruction) bool { _, ok := in.(*ssa.MapUpdate); return ok }) {
+			out = append(out, in.(*ssa.MapUpdate))
+		}
+		return out
+	}
 	if f := c.Fn("raft.(*fsmTxnCommitIndexTracker).logWrite"); f != nil {
-		ups := mapUpdates(f, `\.indexModifiedMap\[index\]$`)
+		const rec = "raft.fsmTxnCommitIndexTracker.indexModifiedMap"
+		// the per-index set that ends up in the record: t.indexModifiedMap[index] looked up again,
+		// or the fresh map that is stored under the index
+		stored := map[ssa.Value]bool{}
+		for _, mu := range allUpdates(f) {
+			if isField(mu.Map, rec) {
+				stored[mu.Value] = true
+			}
+		}
+		var ups []*ssa.MapUpdate
+		for _, mu := range allUpdates(f) {
+			if lk, ok := mu.Map.(*ssa.Lookup); (ok && isField(lk.X, rec)) || stored[mu.Map] {
+				ups = append(ups, mu)
+			}
+		}
 		if c.Floor(f, "record of a plain write", len(ups), 1) {
 			for _, mu := range ups {
 				c.Prov(f, "key recorded for a plain write", mu, mu.Key, `^param:key$`)
@@ -640,22 +702,82 @@ func c09g2RecordOperands(c *eng.Ctx) {
 		}
 	}
 	if f := c.Fn("raft.(*fsmTxnCommitIndexApplicationState).logWrite"); f != nil {
-		own := mapUpdates(f, `^s\.modifiedMap$`)
-		direct := eng.Calls(f, `fsmTxnCommitIndexTracker\)\.logWrite$`)
+		// the two effects, in logWrite itself or in a function literal of it
+		type eff struct {
+			fn *ssa.Function
+			in ssa.Instruction
+			k  ssa.Value
+		}
+		var own, direct []eff
+		fs := append([]*ssa.Function{f}, eng.Closures(f)...)
+		for _, g := range fs {
+			for _, mu := range allUpdates(g) {
+				if isField(mu.Map, "raft.fsmTxnCommitIndexApplicationState.modifiedMap") {
+					own = append(own, eff{g, mu, mu.Key})
+				}
+			}
+			for _, d := range eng.Calls(g, `fsmTxnCommitIndexTracker\)\.logWrite$`) {
+				direct = append(direct, eff{g, d, d.Common().Args[2]})
+			}
+		}
 		if c.Floor(f, "write collected for the transaction", len(own), 1) && c.Floor(f, "write recorded directly", len(direct), 1) {
-			for _, mu := range own {
-				c.Prov(f, "key collected for the transaction", mu, mu.Key, `^param:key$`)
+			for _, pr := range []struct {
+				es   []eff
+				site string
+			}{{own, "key collected for the transaction"}, {direct, "key recorded directly"}} {
+				for _, e := range pr.es {
+					if bad := c09OwnArgument(f, e.fn, e.k); bad == "" {
+						c.OK(e.fn, pr.site, e.in.Pos(), "logWrite's own key argument")
+					} else {
+						c.Violation(e.fn, pr.site, e.in.Pos(), "the key is "+bad+", not the key logWrite was given", nil)
+					}
+				}
 			}
-			for _, d := range direct {
-				c.Prov(f, "key recorded directly", d, d.Common().Args[2], `^param:key$`)
-			}
+			// which effect runs is decided by inTx: with the flag fixed either way, the other effect is
+			// neither executed in logWrite nor in a function literal the call then made may denote
 			c.Clause("R2", "C09.6")
-			var ownI []ssa.Instruction
-			for _, mu := range own {
-				ownI = append(ownI, mu)
+			mayRun := func(inTx bool, es []eff) *eff {
+				fe := eng.Feasible(f, map[string]bool{`^s\.inTx$`: inTx})
+				for i := range es {
+					e := &es[i]
+					if e.fn == f {
+						if fe.Reach[e.in.Block()] {
+							return e
+						}
+						continue
+					}
+					for _, ci := range nfAllCalls(f) {
+						if !fe.Reach[ci.Block()] {
+							continue
+						}
+						for _, r := range eng.Roots(ci.Common().Value, fe) {
+							if g, _ := nfFuncValue(r); g == e.fn {
+								return e
+							}
+						}
+					}
+				}
+				return nil
 			}
-			c.Cut(f, "write collected in the transaction's own set", ownI, eng.G(f, `^s\.inTx$`, true), nil)
-			c.Cut(f, "write recorded directly under the command's index", instrsOf(direct), eng.G(f, `^s\.inTx$`, false), nil)
+			tested := len(eng.CondEdges(f, `^s\.inTx$`, true)) > 0
+			for _, pr := range []struct {
+				inTx bool
+				es   []eff
+				site string
+				msg  string
+			}{
+				{false, own, "write collected in the transaction's own set", "a write of a plain command can be collected in the per-command set, which is never handed to the record"},
+				{true, direct, "write recorded directly under the command's index", "a write of a transaction can be recorded directly: each write replaces the record of the index and only the last survives"},
+			} {
+				switch e := mayRun(pr.inTx, pr.es); {
+				case !tested:
+					c.Violation(f, pr.site, f.Pos(), "logWrite no longer branches on the state's inTx flag", nil)
+				case e != nil:
+					c.Violation(f, pr.site, e.in.Pos(), pr.msg, nil)
+				default:
+					c.OK(f, pr.site, pr.es[0].in.Pos(), "not executed when inTx is "+map[bool]string{true: "true", false: "false"}[pr.inTx])
+				}
+			}
 			c.Clause("R5", "C09.6")
 		}
 	}
